@@ -1,7 +1,13 @@
 #!/venv/bin/python
 """Differential test: real `normalize_blocks_with_unitary_timing` vs the Lean model `Jaqal.UnitTiming`.
 
-Run:   /venv/bin/python /verif/harness/agents/time_diff.py [--driver PATH] [--n N] [--seed S]
+CLI:     PYTHONPATH=/verif /venv/bin/python -m harness.agents.time_diff [--driver PATH] [--n N] [--seed S] [--thorough]
+         (or: /venv/bin/python /verif/harness/agents/time_diff.py ...)
+Module:  harness.agents.time_diff.run(seed, n, driver, thorough) -> dict,  replay(case, driver) -> dict
+         (the "Diff-script protocol" of /verif/notes/AGENT_CONVENTIONS.md).
+         corr["unit_timing"] = model vs real code on all three routes below;
+         oracle[...]         = the property C19 evaluated on the real code alone, on the programs the
+                               parser / circuit builder can produce (routes text and sexp).
 
 `--driver` is a native executable speaking the line protocol of /verif/lean/Main.lean
 (`{"op":"unit_timing","body":[...]}` -> `{"out":{"ok":[...]}|{"err":"jaqal"|"assert"}}`);
@@ -19,7 +25,10 @@ real code along three routes:
 The normalised body is converted back to a tree and compared with the model's answer exactly;
 JaqalError <-> "jaqal", AssertionError <-> "assert"; any other exception is a finding.
 
-Independent checks made on the Python side for every successful run:
+A `case` is {"route": "text"|"sexp"|"obj", "body": [stmt json…], "text": str (route text), "sexp": [...] (route sexp)};
+it is enough to rebuild the circuit (`circuit_of_case`).
+
+Independent checks (the oracles) made on the real objects:
   * the lock-step schedule (gate id, step), computed on the real objects, is the same multiset
     before and after, and the gates of each step keep their program order; every subcircuit block
     keeps its (iterations, start step, duration);  * the (depth, iterations) list of subcircuit blocks is unchanged;
@@ -61,7 +70,7 @@ def gen_seq_items(rng, ids, depth, mode, in_par, in_sub):
 
 def gen_stmt(rng, ids, depth, mode, ctx, in_par, in_sub):
     """mode: 'text' (grammar-legal, builder-legal), 'sexp' (builder-legal), 'obj' (anything)."""
-    if depth <= 0 or rng.random() < 0.35:
+    if depth <= 0 or rng.random() < (0.15 if ctx == "top" else 0.35):
         return ("g", ids.next())
     kinds = []
     if mode == "text":
@@ -282,141 +291,360 @@ def is_flat(body):
     return True
 
 
-# ---------------------------------------------------------------- main
+# ---------------------------------------------------------------- defects (computed on the tree)
+
+
+def loop_in_par(p, t):
+    """a loop inside a parallel block with no other loop in between (mirrors Spec `loopInPar`)"""
+    if t[0] == "g":
+        return False
+    if t[0] == "l":
+        return p
+    return any(loop_in_par(p or t[1], k) for k in t[4])
+
+
+def sub_in_par(p, t):
+    if t[0] != "b":
+        return False
+    return (p and t[2]) or any(sub_in_par(p or t[1], k) for k in t[4])
+
+
+def depth_of(t):
+    if t[0] == "g":
+        return 0
+    if t[0] == "l":
+        return 1 + depth_of(t[2])
+    return 1 + max((depth_of(k) for k in t[4]), default=0)
+
+
+def features(body):
+    f = set()
+
+    def go(t, parent):
+        if t[0] == "g":
+            return
+        if t[0] == "l":
+            f.add("has_loop")
+            go(t[2], "loop")
+            return
+        _, par, sub, it, kids = t
+        kind = "sub" if sub else ("par" if par else "seq")
+        if not kids:
+            f.add("has_empty_block")
+        if sub:
+            f.add("has_subcircuit")
+            if it != 1:
+                f.add("has_iterations_ne_1")
+            if par:
+                f.add("has_parallel_subcircuit")
+        if parent == kind and kind in ("par", "seq"):
+            f.add("has_same_kind_nesting")
+        if par:
+            lens = [len(k[4]) if (k[0] == "b" and not k[1] and not k[2]) else 1 for k in kids]
+            if len(set(lens)) > 1:
+                f.add("has_unequal_branches")
+        for k in kids:
+            go(k, kind)
+
+    for s in body:
+        go(s, "seq_top")
+    return f
+
+
+# ---------------------------------------------------------------- real code
+
+DEFAULT_DRIVER = "/verif/lean/.lake/build/bin/jaqal-model"
+
+FIXED_TEXT = [
+    "g0", "{g0}", "<g0|g1>", "loop 5 {g0; g1}",
+    "{g0;g1;<g2|g3|g4|{g5;g6}>;g7}", "<g0|g1|{<g2|g3>;g4}>",
+    "<g0|{<g1|g2>;g3}|{<g4|g5>;g6}|g7>", "<{loop 5 {}}>", "<>", "{}", "<{}>", "<{<>}>", "<{<>;g0}|g1>",
+    "<{}|{}>", "<g0|{}>", "{<>;<g0>;<{g1}>}", "subcircuit {}",
+    "subcircuit 3 {<g0|{g1;g2}>;loop 2 {<g3|{loop 1 {g4}}>}}",
+    "g0;subcircuit 2 {g1};g2", "<g0|{g1;loop 2 {g2}}>", "<{g0;g1;g2}|{g3}|{<g4|{g5;g6}>;g7;g8;g9}>",
+]
+
+
+def circuit_of_case(case):
+    """Rebuild the real circuit of a case along its route."""
+    route = case["route"]
+    if route == "text":
+        return parse_jaqal_string(case["text"], autoload_pulses=False)
+    if route == "sexp":
+        return build(case["sexp"])
+    c = Circuit()
+    c.body.statements.extend(to_obj(from_json(s)) for s in case["body"])
+    return c
+
+
+def header_of(c):
+    return (dict(c.registers), dict(c.constants), dict(c.macros), list(c.usepulses), dict(c.native_gates))
 
 
 def run_real(circuit):
+    """Normalise with the real code.  Returns (impl, notes): impl = {"ok": [trees]} | {"err": "jaqal"|"assert"|"other:<repr>"};
+    notes = facts observed on the real objects (mutation, header, idempotence)."""
+    notes = {}
     before = [from_obj(s) for s in circuit.body.statements]
-    hdr_before = (dict(circuit.registers), dict(circuit.constants), dict(circuit.macros),
-                  list(circuit.usepulses), dict(circuit.native_gates))
+    hdr_before = header_of(circuit)
+    new = None
     try:
         new = normalize_blocks_with_unitary_timing(circuit)
     except JaqalError:
-        res = {"err": "jaqal"}
+        impl = {"err": "jaqal"}
     except AssertionError:
-        res = {"err": "assert"}
+        impl = {"err": "assert"}
+    except Exception as e:  # anything else is a finding
+        impl = {"err": f"other:{e!r}"}
     else:
-        assert type(new) is Circuit and new is not circuit
-        assert type(new.body) is BlockStatement and not new.body.parallel and not new.body.subcircuit
-        hdr_after = (dict(new.registers), dict(new.constants), dict(new.macros),
-                     list(new.usepulses), dict(new.native_gates))
-        if hdr_after != hdr_before:
-            raise RuntimeError("header data changed")
-        res = {"ok": [from_obj(s) for s in new.body.statements]}
-    after = [from_obj(s) for s in circuit.body.statements]
-    if after != before:
-        raise RuntimeError("input circuit mutated")
-    return res
+        impl = {"ok": [from_obj(s) for s in new.body.statements]}
+        notes["result_is_fresh_circuit"] = (
+            type(new) is Circuit and new is not circuit and type(new.body) is BlockStatement
+            and not new.body.parallel and not new.body.subcircuit)
+        notes["header_equal"] = header_of(new) == hdr_before
+        try:
+            again = normalize_blocks_with_unitary_timing(new)
+            notes["idempotent"] = [from_obj(s) for s in again.body.statements] == impl["ok"] and again == new
+        except Exception as e:
+            notes["idempotent"] = False
+            notes["idempotent_exc"] = repr(e)
+    notes["input_not_mutated"] = ([from_obj(s) for s in circuit.body.statements] == before
+                                  and header_of(circuit) == hdr_before)
+    return impl, notes
+
+
+def impl_json(impl):
+    return {"ok": [to_json(s) for s in impl["ok"]]} if "ok" in impl else dict(impl)
+
+
+def model_answers(bodies_json, driver):
+    """One driver subprocess for the whole batch."""
+    if not bodies_json:
+        return []
+    reqs = "".join(json.dumps({"op": "unit_timing", "body": b}) + "\n" for b in bodies_json)
+    proc = subprocess.run([driver], input=reqs, capture_output=True, text=True, check=True)
+    lines = proc.stdout.splitlines()
+    if len(lines) != len(bodies_json):
+        raise RuntimeError(f"driver answered {len(lines)} lines for {len(bodies_json)} requests")
+    out = []
+    for line in lines:
+        ans = json.loads(line)
+        if "out" not in ans:
+            out.append({"driver_error": ans.get("err", line)})
+        elif "err" in ans["out"]:
+            out.append({"err": ans["out"]["err"]})
+        else:  # canonical form: ints as ints
+            out.append({"ok": [to_json(from_json(s)) for s in ans["out"]["ok"]]})
+    return out
+
+
+ORACLES = [
+    "schedule_multiset_preserved",      # every gate instance at the same time step, none lost or duplicated
+    "per_step_order_preserved",         # gates of one step keep their program order
+    "duration_preserved",
+    "subcircuit_frame_preserved",       # (depth, iterations) of the subcircuit blocks
+    "subcircuit_slots_preserved",       # (iterations, start, duration) of the subcircuit blocks
+    "result_flat",                      # gates, groups of >= 2 gates, loops, subcircuit blocks with flat bodies
+    "header_data_preserved",
+    "input_not_mutated",
+    "idempotent",
+    "loop_in_parallel_is_jaqalerror",   # loop inside a parallel block  =>  JaqalError (never mis-scheduled)
+    "accepted_iff_loop_free_in_parallel",  # builder-producible programs: success <=> no such loop
+    "only_jaqalerror_raised",           # no other exception type on builder-producible programs
+]
+
+
+def eval_oracles(body, impl, notes):
+    """Property C19 on the real code alone.  Returns {oracle name: None (not applicable) | (ok, detail)}."""
+    r = {k: None for k in ORACLES}
+    lip = any(loop_in_par(False, s) for s in body)
+    r["input_not_mutated"] = (notes.get("input_not_mutated", False), "input circuit changed by the call")
+    if lip:
+        r["loop_in_parallel_is_jaqalerror"] = (impl.get("err") == "jaqal", f"outcome {impl_json(impl) if 'err' in impl else 'ok'}")
+    r["accepted_iff_loop_free_in_parallel"] = (("ok" in impl) == (not lip), f"loop in parallel: {lip}, outcome: {'ok' if 'ok' in impl else impl['err']}")
+    r["only_jaqalerror_raised"] = ("ok" in impl or impl["err"] == "jaqal", f"raised {impl.get('err')}")
+    if "ok" in impl:
+        out = impl["ok"]
+        r["schedule_multiset_preserved"] = (body_times(out) == body_times(body),
+                                            f"in {sorted(body_times(body).items())} out {sorted(body_times(out).items())}")
+        r["per_step_order_preserved"] = (body_steps(out) == body_steps(body), f"in {body_steps(body)} out {body_steps(out)}")
+        din, dout = dur(("b", False, False, 1, body)), dur(("b", False, False, 1, out))
+        r["duration_preserved"] = (din == dout, f"in {din} out {dout}")
+        r["subcircuit_frame_preserved"] = (body_frame(out) == body_frame(body), f"in {body_frame(body)} out {body_frame(out)}")
+        r["subcircuit_slots_preserved"] = (body_slots(out) == body_slots(body), f"in {body_slots(body)} out {body_slots(out)}")
+        r["result_flat"] = (is_flat(out), f"out {[to_json(s) for s in out]}")
+        r["header_data_preserved"] = (bool(notes.get("header_equal")) and bool(notes.get("result_is_fresh_circuit")),
+                                      "header of the new circuit differs / result not a fresh Circuit")
+        r["idempotent"] = (bool(notes.get("idempotent")), notes.get("idempotent_exc", "normalising the result again changed it"))
+    return r
+
+
+# ---------------------------------------------------------------- case generation
+
+
+def gen_cases(seed, n, thorough):
+    """All randomness from random.Random(seed).  About n cases (x10 when thorough), a third per route."""
+    rng = random.Random(seed)
+    total = n * (10 if thorough else 1)
+    per_route = max(1, total // 3)
+    cases, gen_problems = [], []
+    for txt in FIXED_TEXT:
+        c = parse_jaqal_string(txt, autoload_pulses=False)
+        body = [from_obj(s) for s in c.body.statements]
+        cases.append({"route": "text", "text": txt, "body": [to_json(s) for s in body]})
+    for route in ("text", "sexp", "obj"):
+        for _ in range(per_route):
+            body, _nids = gen_body(rng, route)
+            case = {"route": route, "body": [to_json(s) for s in body]}
+            if route == "text":
+                hdr = rng.choice(HEADERS)
+                sep = rng.choice(["\n", "; ", ";\n"])
+                case["text"] = hdr + sep.join(to_text(s, rng) for s in body)
+            elif route == "sexp":
+                case["sexp"] = ["circuit"] + [to_sexp(s) for s in body]
+            cases.append(case)
+    return cases, gen_problems
+
+
+def _trunc(lst, k=20):
+    return lst[:k]
+
+
+def run(seed: int, n: int, driver: str = DEFAULT_DRIVER, thorough: bool = False) -> dict:
+    cases, _ = gen_cases(seed, n, thorough)
+    corr = {"unit_timing": {"cases": 0, "disagreements": []}}
+    oracle = {k: {"cases": 0, "failures": []} for k in ORACLES + ["front_end_builds_the_generated_tree"]}
+    dist = Counter()
+    nontrivial = set()
+
+    # real side first (per case), model side in one batch
+    real = []
+    for case in cases:
+        body = [from_json(s) for s in case["body"]]
+        fe = oracle["front_end_builds_the_generated_tree"]
+        try:
+            c = circuit_of_case(case)
+            got = [from_obj(s) for s in c.body.statements]
+        except Exception as e:
+            if case["route"] != "obj":
+                fe["cases"] += 1
+                fe["failures"].append({"case": case, "detail": f"generated program rejected by the front end: {e!r}"})
+            real.append(None)
+            continue
+        if case["route"] != "obj":
+            fe["cases"] += 1
+            if got != body:
+                fe["failures"].append({"case": case, "detail": f"front end built {[to_json(s) for s in got]}"})
+                real.append(None)
+                continue
+        real.append(run_real(c))
+
+    live = [(case, r) for case, r in zip(cases, real) if r is not None]
+    models = model_answers([case["body"] for case, _ in live], driver)
+
+    for (case, (impl, notes)), model in zip(live, models):
+        route = case["route"]
+        body = [from_json(s) for s in case["body"]]
+        ij = impl_json(impl)
+        corr["unit_timing"]["cases"] += 1
+        if model != ij:
+            corr["unit_timing"]["disagreements"].append({"case": case, "model": model, "impl": ij})
+        outcome = "ok" if "ok" in impl else impl["err"].split(":")[0]
+        dist[f"route={route}"] += 1
+        dist[f"{route}:{outcome}"] += 1
+        dist[f"outcome={outcome}"] += 1
+        dist[f"depth={max((depth_of(s) for s in body), default=0)}"] += 1
+        ngates = json.dumps(case["body"]).count('"g"')
+        dist["gates<=3" if ngates <= 3 else "gates<=10" if ngates <= 10 else "gates>10"] += 1
+        for f in features(body):
+            dist[f] += 1
+        changed = "ok" in impl and impl["ok"] != body
+        if changed:
+            dist["ok_and_changed"] += 1
+        if "ok" in impl and body_times(impl["ok"]):
+            dist["ok_and_nonempty_schedule"] += 1
+        if any(loop_in_par(False, s) for s in body):
+            dist["defect_loop_in_parallel"] += 1
+        if any(sub_in_par(False, s) for s in body):
+            dist["defect_subcircuit_in_parallel(direct objects only)"] += 1
+        if changed or "err" in impl:
+            nontrivial.add(json.dumps([route, case["body"]], sort_keys=True))
+        # the property on the real code alone: only programs the parser / builder can produce
+        if route != "obj":
+            for name, res in eval_oracles(body, impl, notes).items():
+                if res is None:
+                    continue
+                oracle[name]["cases"] += 1
+                if not res[0]:
+                    oracle[name]["failures"].append({"case": case, "detail": res[1]})
+
+    corr["unit_timing"]["disagreements"] = _trunc(corr["unit_timing"]["disagreements"])
+    for k in oracle:
+        oracle[k]["failures"] = _trunc(oracle[k]["failures"])
+    samples = [c for c in cases if c["route"] == "text"][21:24] + [c for c in cases if c["route"] == "sexp"][:2] \
+        + [c for c in cases if c["route"] == "obj"][:2]
+    return {"corr": corr, "oracle": oracle, "distribution": dict(sorted(dist.items())),
+            "samples": samples, "nontrivial": len(nontrivial)}
+
+
+def replay(case: dict, driver: str = DEFAULT_DRIVER) -> dict:
+    """Re-run ONE case (a `case` of a disagreement / failure entry)."""
+    body = [from_json(s) for s in case["body"]]
+    model = model_answers([case["body"]], driver)[0]
+    try:
+        c = circuit_of_case(case)
+        got = [from_obj(s) for s in c.body.statements]
+    except Exception as e:
+        return {"model": model, "impl": {"err": f"front end: {e!r}"}, "oracle_ok": None,
+                "detail": "the front end rejects this program"}
+    if got != body:
+        return {"model": model, "impl": None, "oracle_ok": False,
+                "detail": f"front end built a different tree: {[to_json(s) for s in got]}"}
+    impl, notes = run_real(c)
+    ij = impl_json(impl)
+    details = []
+    if case["route"] == "obj":
+        oracle_ok = None  # direct construction: outside the oracles (AssertionError path lives here)
+    else:
+        oracle_ok = True
+        for name, res in eval_oracles(body, impl, notes).items():
+            if res is not None and not res[0]:
+                oracle_ok = False
+                details.append(f"{name}: {res[1]}")
+    if model != ij:
+        details.append("model and implementation disagree")
+    return {"model": model, "impl": ij, "oracle_ok": oracle_ok, "detail": "; ".join(details) or "agree"}
+
+
+# ---------------------------------------------------------------- CLI
 
 
 def main():
     ap = argparse.ArgumentParser()
-    ap.add_argument("--driver", default="/verif/lean/.lake/build/bin/jaqal-model")
-    ap.add_argument("--n", type=int, default=6000, help="cases per route")
+    ap.add_argument("--driver", default=DEFAULT_DRIVER)
+    ap.add_argument("--n", type=int, default=6000, help="approximate number of cases (a third per route)")
     ap.add_argument("--seed", type=int, default=19)
+    ap.add_argument("--thorough", action="store_true")
+    ap.add_argument("--json", action="store_true", help="print the whole result dict")
     args = ap.parse_args()
-    rng = random.Random(args.seed)
-
-    fixed_text = [
-        "foo_", "g0", "{g0}", "<g0|g1>", "loop 5 {g0; g1}",
-        "{g0;g1;<g2|g3|g4|{g5;g6}>;g7}", "<g0|g1|{<g2|g3>;g4}>",
-        "<g0|{<g1|g2>;g3}|{<g4|g5>;g6}|g7>", "<{loop 5 {}}>", "<>", "{}", "<{}>", "<{<>}>", "<{<>;g0}|g1>",
-        "<{}|{}>", "<g0|{}>", "{<>;<g0>;<{g1}>}", "subcircuit {}", "subcircuit 3 {<g0|{g1;g2}>;loop 2 {<g3|{loop 1 {g4}}>}}",
-        "g0;subcircuit 2 {g1};g2", "<g0|{g1;loop 2 {g2}}>", "<{g0;g1;g2}|{g3}|{<g4|{g5;g6}>;g7;g8;g9}>",
-    ]
-    cases = []  # (route, description, tree body, circuit or None)
-    for txt in fixed_text[1:]:
-        c = parse_jaqal_string(txt, autoload_pulses=False)
-        cases.append(("text", txt, [from_obj(s) for s in c.body.statements], c))
-
-    skipped = Counter()
-    for route in ("text", "sexp", "obj"):
-        for _ in range(args.n):
-            body, _nids = gen_body(rng, route)
-            if route == "text":
-                hdr = rng.choice(HEADERS)
-                sep = rng.choice(["\n", "; ", ";\n"])
-                txt = hdr + sep.join(to_text(s, rng) for s in body)
-                try:
-                    c = parse_jaqal_string(txt, autoload_pulses=False)
-                except Exception as e:  # generator bug: everything generated must parse
-                    print("FINDING(parse)", repr(txt), repr(e))
-                    skipped["parse"] += 1
-                    continue
-                desc = txt
-            elif route == "sexp":
-                sx = ["circuit"] + [to_sexp(s) for s in body]
-                try:
-                    c = build(sx)
-                except Exception as e:
-                    print("FINDING(build)", sx, repr(e))
-                    skipped["build"] += 1
-                    continue
-                desc = json.dumps(sx)
-            else:
-                c = Circuit()
-                c.body.statements.extend(to_obj(s) for s in body)
-                desc = "obj " + json.dumps([to_json(s) for s in body])
-            got = [from_obj(s) for s in c.body.statements]
-            if got != body:
-                print("FINDING(front end changed the tree)", desc, got, body)
-                skipped["frontend"] += 1
-                continue
-            cases.append((route, desc, body, c))
-
-    reqs = "".join(json.dumps({"op": "unit_timing", "body": [to_json(s) for s in body]}) + "\n"
-                   for (_r, _d, body, _c) in cases)
-    proc = subprocess.run([args.driver], input=reqs, capture_output=True, text=True, check=True)
-    lines = proc.stdout.splitlines()
-    assert len(lines) == len(cases), (len(lines), len(cases))
-
-    stats = Counter()
+    res = run(args.seed, args.n, args.driver, args.thorough)
+    if args.json:
+        print(json.dumps(res, indent=1))
     bad = 0
-    for (route, desc, body, c), line in zip(cases, lines):
-        ans = json.loads(line)
-        if "out" not in ans:
-            print("DRIVER ERROR", desc, line)
-            bad += 1
-            continue
-        m = ans["out"]
-        model = {"err": m["err"]} if "err" in m else {"ok": [from_json(s) for s in m["ok"]]}
-        try:
-            real = run_real(c)
-        except Exception as e:
-            print(f"FINDING(unexpected exception {e!r}) [{route}] {desc}")
-            bad += 1
-            continue
-        key = "ok" if "ok" in real else real["err"]
-        stats[(route, key)] += 1
-        if real != model:
-            print(f"MISMATCH [{route}] {desc}\n   real : {real}\n   model: {model}")
-            bad += 1
-            continue
-        if "ok" in real:
-            out = real["ok"]
-            if body_times(out) != body_times(body):
-                print(f"FINDING(schedule changed) [{route}] {desc}\n   out: {out}")
-                bad += 1
-            if body_steps(out) != body_steps(body):
-                print(f"FINDING(order inside a step changed) [{route}] {desc}\n   out: {out}")
-                bad += 1
-            if body_slots(out) != body_slots(body):
-                print(f"FINDING(subcircuit time slot changed) [{route}] {desc}\n   out: {out}")
-                bad += 1
-            if body_frame(out) != body_frame(body):
-                print(f"FINDING(subcircuit annotations changed) [{route}] {desc}\n   out: {out}")
-                bad += 1
-            if not is_flat(out):
-                print(f"FINDING(result not flat) [{route}] {desc}\n   out: {out}")
-                bad += 1
-            if body_times(out):
-                stats[(route, "ok-nonempty")] += 1
-            if out != body:
-                stats[(route, "ok-changed")] += 1
-    print("cases:", len(cases), "skipped:", dict(skipped))
-    for k in sorted(stats):
-        print("  ", k, stats[k])
-    bad += sum(skipped.values())
+    for op, d in res["corr"].items():
+        print(f"corr   {op}: {d['cases']} cases, {len(d['disagreements'])} disagreements (shown <= 20)")
+        for x in d["disagreements"]:
+            print("  MISMATCH", json.dumps(x))
+        bad += len(d["disagreements"])
+    for name, d in res["oracle"].items():
+        print(f"oracle {name}: {d['cases']} cases, {len(d['failures'])} failures")
+        for x in d["failures"]:
+            print("  FINDING", json.dumps(x))
+        bad += len(d["failures"])
+    print("distribution:")
+    for k, v in res["distribution"].items():
+        print("  ", k, v)
+    print("nontrivial distinct cases:", res["nontrivial"])
     print("RESULT:", "OK" if bad == 0 else f"{bad} PROBLEMS")
     sys.exit(0 if bad == 0 else 1)
 
